@@ -35,27 +35,36 @@ type Group struct {
 }
 
 type Plan struct {
-	Seed   uint64
-	Peers  int
-	GTDMs  int  // GossipToTheDeadTime of the subject (short, so that the reaper runs)
-	Faulty bool // lossy network
-	Frozen bool `json:",omitempty"` // the subject also knows a frozen member: it swallows packets, accepts streams and never answers
-	TCPMs  int  `json:",omitempty"` // TCPTimeout of the subject (0 = 400 ms); 10 s is the documented default, far beyond the probe interval
-	Groups []Group
+	Seed         uint64
+	Peers        int
+	GTDMs        int  // GossipToTheDeadTime of the subject (short, so that the reaper runs)
+	Faulty       bool // lossy network
+	Frozen       bool `json:",omitempty"` // the subject also knows a frozen member: it swallows packets, accepts streams and never answers
+	PeersLeaveMs int  `json:",omitempty"` // every peer leaves gracefully and shuts down at this instant (0 = never): the subject ends up alone among departed members
+	TCPMs        int  `json:",omitempty"` // TCPTimeout of the subject (0 = 400 ms); 10 s is the documented default, far beyond the probe interval
+	Groups       []Group
 }
 
 var queryKinds = []string{"members", "nummembers", "localnode", "health", "pv", "update", "besteffort", "reliable", "ping", "join"}
 
 func genPlan(t *rapid.T) Plan {
 	p := Plan{Seed: rapid.Uint64Range(1, 1<<40).Draw(t, "seed"), Peers: rapid.IntRange(0, 3).Draw(t, "peers"),
-		GTDMs: rapid.SampledFrom([]int{500, 2000}).Draw(t, "gtd"), Faulty: rapid.IntRange(0, 3).Draw(t, "faulty") == 0}
+		GTDMs: rapid.SampledFrom([]int{500, 2000, 2000, 30000}).Draw(t, "gtd"), Faulty: rapid.IntRange(0, 3).Draw(t, "faulty") == 0}
 	p.Frozen = rapid.Bool().Draw(t, "frozen")
 	p.TCPMs = rapid.SampledFrom([]int{400, 400, 10000}).Draw(t, "tcpms")
+	if p.Peers > 0 {
+		p.PeersLeaveMs = rapid.SampledFrom([]int{0, 0, 400, 2000, 5000}).Draw(t, "peersleave")
+	}
 	ng := rapid.IntRange(1, 7).Draw(t, "ngroups")
 	shutdown := false
 	leaveInFlight := false
+	elapsed := 300 // the groups start 300 ms after the cluster formed
 	for g := 0; g < ng; g++ {
 		grp := Group{AfterMs: rapid.SampledFrom([]int{0, 1, 100, 700, 3000, 9000}).Draw(t, "after")}
+		elapsed += grp.AfterMs
+		// without a timeout (0) Leave and UpdateNode wait until the broadcast went out; that is only certain to happen
+		// when nobody is left to tell (alone from the start, or every peer departed a while ago): then they return at once
+		alone := !p.Frozen && (p.Peers == 0 || (p.PeersLeaveMs > 0 && elapsed >= p.PeersLeaveMs+1500))
 		if grp.AfterMs >= 100 {
 			leaveInFlight = false // Leave(timeout<=60ms here) has long returned
 		}
@@ -71,6 +80,9 @@ func genPlan(t *rapid.T) Plan {
 			switch k {
 			case "leave":
 				call.Arg = rapid.SampledFrom([]int{5, 60}).Draw(t, "timeout")
+				if alone && rapid.Bool().Draw(t, "notimeout") {
+					call.Arg = 0
+				}
 				// a Leave call is started strictly before any Shutdown of its group; two Leave
 				// calls never overlap in the bubble (see the real-time test for that)
 				call.DelayUs = 0
@@ -82,6 +94,9 @@ func genPlan(t *rapid.T) Plan {
 				}
 			case "update":
 				call.Arg = rapid.SampledFrom([]int{5, 300}).Draw(t, "timeout")
+				if alone && !shutdown && rapid.Bool().Draw(t, "notimeout") {
+					call.Arg = 0
+				}
 			case "join", "besteffort", "reliable", "ping":
 				call.Arg = rapid.IntRange(0, 3).Draw(t, "peer")
 			}
@@ -94,6 +109,14 @@ func genPlan(t *rapid.T) Plan {
 			hasLeave = hasLeave || c.Kind == "leave"
 		}
 		_ = hasLeave
+		if hasShutdown {
+			// waiting without a timeout for a broadcast while Shutdown stops the gossip is the caller's own deadlock
+			for i := range grp.Calls {
+				if (grp.Calls[i].Kind == "leave" || grp.Calls[i].Kind == "update") && grp.Calls[i].Arg == 0 {
+					grp.Calls[i].Arg = 5
+				}
+			}
+		}
 		p.Groups = append(p.Groups, grp)
 		if hasShutdown {
 			shutdown = true
@@ -189,8 +212,30 @@ func run(pl Plan) (res vfx.Result) {
 		c.SetFaults(cluster.Faults{LossPct: 30, DupPct: 10, MinLatUs: 50, MaxLatUs: 50000, RefusePct: 20, CutPct: 20}, true)
 	}
 	time.Sleep(300 * time.Millisecond)
+	var pmu sync.Mutex
+	peersDown := false
+	leaving := map[*cluster.Node]bool{} // peers whose own leave sequence has started (it ends with their Shutdown)
+	if pl.PeersLeaveMs > 0 {
+		labels["peers-leave"] = true
+		for _, nd := range peers {
+			nd := nd
+			time.AfterFunc(time.Duration(pl.PeersLeaveMs)*time.Millisecond, func() {
+				// (never wait with the mutex held: inside the bubble time stands still while anybody waits for a mutex)
+				pmu.Lock()
+				if peersDown {
+					pmu.Unlock()
+					return // the run is over
+				}
+				leaving[nd] = true
+				pmu.Unlock()
+				_ = nd.M.Leave(time.Second)
+				_ = nd.M.Shutdown()
+			})
+		}
+	}
 	m := sub.M
 	var userDialTimes []time.Duration
+	var lateLabels []string // set by call goroutines (under smu), merged after each group
 	var shutdownReturned time.Duration = -1
 	var smu sync.Mutex
 	stage := "joined"
@@ -232,6 +277,13 @@ func run(pl Plan) (res vfx.Result) {
 				err := m.Leave(time.Duration(cl.Arg) * time.Millisecond)
 				desc = fmt.Sprintf("leave(%dms)=%v", cl.Arg, err)
 				bound = time.Duration(cl.Arg)*time.Millisecond + time.Millisecond
+				if cl.Arg == 0 {
+					// nobody to tell: nothing to wait for (10 s is far beyond any broadcast that might still be going out)
+					bound = 10 * time.Second
+					smu.Lock()
+					lateLabels = append(lateLabels, "leave-without-timeout")
+					smu.Unlock()
+				}
 				smu.Lock()
 				if leftAt < 0 {
 					leftAt = c.Net.Now()
@@ -264,6 +316,12 @@ func run(pl Plan) (res vfx.Result) {
 			case "update":
 				_ = m.UpdateNode(time.Duration(cl.Arg) * time.Millisecond)
 				bound = time.Duration(cl.Arg)*time.Millisecond + time.Millisecond
+				if cl.Arg == 0 {
+					bound = 10 * time.Second
+					smu.Lock()
+					lateLabels = append(lateLabels, "update-without-timeout")
+					smu.Unlock()
+				}
 			case "besteffort":
 				_, n := peerAddr(cl.Arg)
 				_ = m.SendBestEffort(n, []byte(userMarker+"be"))
@@ -310,7 +368,32 @@ func run(pl Plan) (res vfx.Result) {
 			go doCall(gi, cl, &wg)
 			labels[stage+"|"+cl.Kind] = true
 		}
-		wg.Wait()
+		// every call has a bound (at most 10 s for the calls without a timeout); a call that has not returned after a
+		// minute of virtual time never will: while tickers keep running virtual time would advance for ever
+		groupDone := make(chan struct{})
+		go func() { wg.Wait(); close(groupDone) }()
+		stuck := false
+		select {
+		case <-groupDone:
+		case <-time.After(60 * time.Second):
+			stuck = true
+		}
+		if stuck {
+			var kinds []string
+			for _, cl := range g.Calls {
+				kinds = append(kinds, fmt.Sprintf("%s(%d)", cl.Kind, cl.Arg))
+			}
+			hmu.Lock()
+			hcopy := append([]string(nil), hist...)
+			hmu.Unlock()
+			setErr(fmt.Errorf("group %d at stage %q: a call of %v has not returned after 60 s of virtual time (deadlock); history %v", gi, stage, kinds, hcopy))
+			break
+		}
+		smu.Lock()
+		for _, l := range lateLabels {
+			labels[l] = true
+		}
+		smu.Unlock()
 		if len(g.Calls) >= 2 || stage == "left-and-reaped" {
 			res.NonTrivial = true
 		}
@@ -331,7 +414,16 @@ func run(pl Plan) (res vfx.Result) {
 	// all background activity ends within one awareness-scaled probe interval (TCPTimeout <= that)
 	time.Sleep(2*P*time.Millisecond + 50*time.Millisecond)
 	tapLen := len(c.Net.Events())
+	pmu.Lock()
+	peersDown = true
+	var stopNow []*cluster.Node
 	for _, nd := range peers {
+		if !leaving[nd] {
+			stopNow = append(stopNow, nd)
+		}
+	}
+	pmu.Unlock()
+	for _, nd := range stopNow {
 		_ = nd.M.Shutdown()
 	}
 	time.Sleep(5 * time.Second)
